@@ -54,8 +54,18 @@ type propCfg struct {
 
 var root = "/verif"
 
+// tmpDirs are removed on every way out, including fatal2.
+var tmpDirs []string
+
+func cleanupTmp() {
+	for _, d := range tmpDirs {
+		os.RemoveAll(d)
+	}
+}
+
 func fatal2(format string, a ...any) {
 	fmt.Fprintf(os.Stderr, "verif: infrastructure error: "+format+"\n", a...)
+	cleanupTmp()
 	os.Exit(2)
 }
 
@@ -148,6 +158,7 @@ func mkTmp() string {
 	if err != nil {
 		fatal2("mktemp: %v", err)
 	}
+	tmpDirs = append(tmpDirs, d)
 	return d
 }
 
